@@ -81,8 +81,34 @@ enum class E9
   n8,
   fcppt_maximum = n8
 };
+// names served as views cut out of ONE packed table: no view is followed by a NUL (to_string returns a string_view,
+// which carries its own length)
+enum class E4packed
+{
+  red,
+  green,
+  blue,
+  gre,
+  fcppt_maximum = gre
+};
 namespace fcppt::enum_
 {
+template <>
+struct to_string_impl<E4packed>
+{
+  static std::string_view get(E4packed e)
+  {
+    static constexpr std::string_view table{"redgreenbluegre-tail"};
+    switch (e)
+    {
+    case E4packed::red: return table.substr(0, 3);
+    case E4packed::green: return table.substr(3, 5);
+    case E4packed::blue: return table.substr(8, 4);
+    case E4packed::gre: return table.substr(12, 3);
+    }
+    return table.substr(0, 0);
+  }
+};
 template <>
 struct to_string_impl<E1>
 {
@@ -939,6 +965,7 @@ void body()
   enum_roundtrip<E1>("E1", {"", "onl", "onlyx", "Only"});
   enum_roundtrip<E5>("E5", {"", "alph", "alphax", "a", "ALPHA", "eps", "bet"});
   enum_roundtrip<E9>("E9", {"", "n", "n9", "n00", "8"});
+  enum_roundtrip<E4packed>("E4packed", {"", "re", "redg", "redgreen", "greenblue", "gre-tail", "bluegre"});
   vector_roundtrip<1>();
   vector_roundtrip<2>();
   vector_roundtrip<3>();
